@@ -55,28 +55,42 @@ def run(ctx):
     quick = ctx.quick
     variant = G.detect_variant()
     ctx.note(f"implementation follows alternative {variant} (Reprocess, StaleExc; FF = repaired)")
-    consts = {"Impls": {"plan_mutator"}, "Procs": {"insert"}, "Variants": {"FF", variant},
-              "MaxOpsId": 0, "MaxOpsIns": 3 if quick else 4, "MaxGens": 2 if quick else 3, "MaxPost": 0, "KeepHist": True}
+    base = {"Impls": {"plan_mutator"}, "Procs": {"insert"}, "MaxOpsId": 0, "MaxPost": 0, "KeepHist": True, "DumpVariants": {variant}}
+    both = {"FF", variant}
+    # (MaxOpsIns, MaxGens, alternatives, histories printed and replayed?)
+    plan = [(3, 2, both, True)] if quick else [(4, 3, both, False), (4, 2, both, True), (3, 3, {variant}, True)]
     ctx.rule = ("cases = every maximal behaviour of PlanMutator.tla with an inserting processor (driver scripts x host/head/tail "
                 "reactions x processor answers id/h/t/ht at every message, up to MaxOpsIns driver operations and MaxGens inserted "
                 "generators) for the alternative the code follows, each replayed on the real plan_mutator; distinct by the full "
                 "event sequence; non-trivial = the processor inserts at least once.  Plus random programs with random inserting "
                 "processors and the real baseline/monitor_during/relative_set wrappers under random driver scripts, validated by TLC.")
     # 1. the design: repaired alternative strictly, as-found alternative modulo the open findings; all histories
-    res, hists = G.tlc_histories(ctx, "C21_exhaustive", consts, INVS, tag="C21")
-    ctx.add_tlc(res, f"PlanMutator insert exhaustive MaxOpsIns={consts['MaxOpsIns']} MaxGens={consts['MaxGens']} variants={sorted(consts['Variants'])}")
-    if not res.ok:
-        st = res.trace[-1][1] if res.trace else {}
-        h = st.get("hist", ())
-        ctx.violation(f"spec:{res.violated}:{st.get('variant')}",
-                      f"PlanMutator.tla: {res.kind} {res.violated} violated in the model (alternative {st.get('variant')}); history {list(h)}",
-                      {"hist": [list(e) for e in h]})
-        return
-    mine = [r for r in hists if r["variant"] == variant]
-    if not mine:
-        ctx.machinery("TLC produced no histories")
+    mine = []
+    for ops, gens, variants, dump in plan:
+        consts = dict(base, MaxOpsIns=ops, MaxGens=gens, Variants=variants)
+        label = f"PlanMutator insert exhaustive MaxOpsIns={ops} MaxGens={gens} variants={sorted(variants)}"
+        if dump:
+            res, hists = G.tlc_histories(ctx, f"C21_exhaustive_{ops}_{gens}", consts, INVS, tag="C21")
+        else:
+            from harness.tlc import run_tlc, write_cfg
+            res = run_tlc("PlanMutator", write_cfg(ctx.out / f"C21_check_{ops}_{gens}.cfg", consts, invariants=INVS),
+                          spec_dir=G.SD, tag="C21", timeout=3000)
+            hists = []
+        ctx.add_tlc(res, label)
+        if not res.ok:
+            st = res.trace[-1][1] if res.trace else {}
+            h = st.get("hist", ())
+            ctx.violation(f"spec:{res.violated}:{st.get('variant')}",
+                          f"PlanMutator.tla: {res.kind} {res.violated} violated in the model (alternative {st.get('variant')}); history {list(h)}",
+                          {"hist": [list(e) for e in h]})
+            return
+        got = [r for r in hists if r["variant"] == variant]
+        if dump and not got:
+            ctx.machinery("TLC produced no histories")
+        ctx.note(f"{len(got)} maximal histories of alternative {variant} replayed")
+        mine += got
+        del hists
     ctx.cov["exhaustive"] = True
-    ctx.note(f"{len(hists)} maximal histories, {len(mine)} of alternative {variant} replayed")
     # 2. spec -> code
     nbad = 0
     for rec in mine:
@@ -104,11 +118,11 @@ def run(ctx):
     rng = random.Random(ctx.seed)
     traces, meta = [], []
     with G.quiet_gc():
-        for _ in range(120 if quick else 2500):
+        for _ in range(80 if quick else 2000):
             t, info = G.insert_trace(rng, variant, size=rng.randint(3, 10 if quick else 14))
             traces.append(t)
             meta.append(info)
-        for i in range(120 if quick else 2400):
+        for i in range(60 if quick else 1500):
             user = USERS[i % 3]
             t, src = G.user_trace(rng, user, variant, size=rng.randint(4, 12))
             traces.append(t)
